@@ -4,6 +4,9 @@ lists) from the files present, so that merges never have to touch them."""
 import os
 VERIF = os.path.dirname(os.path.dirname(os.path.abspath(__file__)))
 LEAN = os.path.join(VERIF, "lean")
+SKIP_FILE = os.path.join(VERIF, 'tools', 'genimports_skip.txt')
+PARKED = [l.strip() for l in open(SKIP_FILE)] if os.path.exists(SKIP_FILE) else []
+
 def mods(root, skip=()):
     out = []
     for d, _, fs in os.walk(os.path.join(LEAN, root)):
@@ -14,4 +17,4 @@ def mods(root, skip=()):
                     out.append(m)
     return sorted(out)
 open(os.path.join(LEAN, "Dhcp.lean"), "w").write("".join(f"import {m}\n" for m in mods("Dhcp", skip=("Dhcp.Driver", "Dhcp.Gen"))))
-open(os.path.join(LEAN, "DhcpProofs.lean"), "w").write("".join(f"import {m}\n" for m in mods("DhcpProofs")))
+open(os.path.join(LEAN, "DhcpProofs.lean"), "w").write("".join(f"import {m}\n" for m in mods("DhcpProofs", skip=tuple(p for p in PARKED if p))))
